@@ -247,6 +247,73 @@ variable {α : Type} [Add α] [Sub α] [Mul α] [Div α] [Neg α] [LT α] [LE α
   ⟨fe.1, vb fe.2.1, vb fe.2.2, is.1, vb is.2, isb⟩
 end
 
+/-! ### Which arms a case executes (instrumentation, generic scalar)
+
+Replicates the model's branch conditions with the model's own operations, so that it can be evaluated at `Rat`
+(small-T lattice) and at `Float` / `Float32` (guard sweep: IEEE level, overflowing `face − pos` included).
+Indices: 0-5 `fe` axis × {`dir<0` fallback returns false, falls through}; 6-17 `intersects` axis × sign ×
+{back update skipped, front parameter := T}; 18-20 `fe` guard true through `|dir| > 1` ALONE; 21-23 `fe` `dir >= 0`
+fallback with `dir > 0`; 24-29 `fe` block reached with a NON-FINITE `face − pos` (axis × sign of dir);
+30-35 `intersects` block reached with a non-finite `face − pos` (axis × sign). -/
+section
+variable {α : Type} [Add α] [Sub α] [Mul α] [Div α] [Neg α] [LT α] [LE α]
+  [DecidableLT α] [DecidableLE α] [OfNat α 0] [OfNat α 1]
+
+@[specialize] def armsG (T : α) (r : Line3 α) (b : Box3 α) (nonFinite : α → Bool) (h : Array Nat) : Array Nat := Id.run do
+  if b.isEmpty then return h
+  let mut h := h
+  let ax (a : Nat) : α × α × α × α :=
+    if a == 0 then (r.pos.x, r.dir.x, b.min.x, b.max.x) else if a == 1 then (r.pos.y, r.dir.y, b.min.y, b.max.y)
+    else (r.pos.z, r.dir.z, b.min.z, b.max.z)
+  -- findEntryAndExitPoints
+  let mut live := true
+  for a in [0:3] do
+    if live then
+      let (p, d, lo, hi) := ax a
+      let second : Bool :=
+        if d >= 0 then decide (iabs (hi - p) < T * d ∧ iabs (lo - p) < T * d)
+        else decide (iabs (lo - p) < -T * d ∧ iabs (hi - p) < -T * d)
+      let g : Bool := (if d >= 0 then decide (d > 1) else decide (d < -1)) || second
+      let out : Bool := decide (p < lo) || decide (p > hi)
+      if (nonFinite (hi - p) || nonFinite (lo - p)) then
+        if d > 0 then h := h.modify (24 + 2 * a) (· + 1)
+        if d < 0 then h := h.modify (24 + 2 * a + 1) (· + 1)
+      if !g then
+        if d < 0 then h := h.modify (2 * a + (if out then 0 else 1)) (· + 1)
+        if d > 0 then h := h.modify (21 + a) (· + 1)
+        if out then live := false
+      else if !second then h := h.modify (18 + a) (· + 1)
+  -- intersects (blocks run only for an origin outside the box)
+  if b.containsPt r.pos then return h
+  live := true
+  for a in [0:3] do
+    if live then
+      let (p, d, lo, hi) := ax a
+      if d > 0 then
+        if p > hi then live := false
+        else
+          if nonFinite (hi - p) || nonFinite (lo - p) then h := h.modify (30 + 2 * a) (· + 1)
+          if !(decide (d > 1) || decide (hi - p < T * d)) then h := h.modify (6 + 4 * a) (· + 1)
+          if decide (p <= lo) && !(decide (d > 1) || decide (lo - p < T * d)) then h := h.modify (6 + 4 * a + 1) (· + 1)
+      else if d < 0 then
+        if p < lo then live := false
+        else
+          if nonFinite (hi - p) || nonFinite (lo - p) then h := h.modify (30 + 2 * a + 1) (· + 1)
+          if !(decide (d < -1) || decide (lo - p > T * d)) then h := h.modify (6 + 4 * a + 2) (· + 1)
+          if decide (p >= hi) && !(decide (d < -1) || decide (hi - p > T * d)) then h := h.modify (6 + 4 * a + 3) (· + 1)
+      else if decide (p < lo) || decide (p > hi) then live := false
+  return h
+end
+
+def NARMS : Nat := 36
+
+def armsF64b (v : Array UInt64) (h : Array Nat) : Array Nat :=
+  let f (i : Nat) : Float := Float.ofBits v[i]!
+  armsG tmaxF ⟨⟨f 6, f 7, f 8⟩, ⟨f 9, f 10, f 11⟩⟩ ⟨⟨f 0, f 1, f 2⟩, ⟨f 3, f 4, f 5⟩⟩ (fun x => x.isInf || x.isNaN) h
+def armsF32b (v : Array UInt64) (h : Array Nat) : Array Nat :=
+  let f (i : Nat) : Float32 := (Float.ofBits v[i]!).toFloat32
+  armsG tmaxF32 ⟨⟨f 6, f 7, f 8⟩, ⟨f 9, f 10, f 11⟩⟩ ⟨⟨f 0, f 1, f 2⟩, ⟨f 3, f 4, f 5⟩⟩ (fun x => x.isInf || x.isNaN) h
+
 def runF64 (v : Array Int) : GOut := runG tmaxF (fun i => Float.ofInt i) Float.toBits v
 def runF32 (v : Array Int) : GOut :=
   runG tmaxF32 (fun i => (Float.ofInt i).toFloat32) (fun x => x.toFloat.toBits) v
@@ -331,6 +398,7 @@ structure SweepAcc where
   feTrue : Nat := 0             -- implementation results that are true (their points were classified by the harness)
   isTrueOutside : Nat := 0
   zeroDirCases : Nat := 0
+  arms : Array Nat := Array.replicate 36 0     -- per-arm hit counts at IEEE level (see `armsG`)
   counts : List (String × Nat) := []
   examples : List String := []
 
@@ -355,6 +423,7 @@ def SweepAcc.merge (a b : SweepAcc) : SweepAcc := Id.run do
            isFrontSubst := a.isFrontSubst + b.isFrontSubst, isBackSkip := a.isBackSkip + b.isBackSkip,
            wrapperDiffers := a.wrapperDiffers + b.wrapperDiffers, feTrue := a.feTrue + b.feTrue,
            isTrueOutside := a.isTrueOutside + b.isTrueOutside, zeroDirCases := a.zeroDirCases + b.zeroDirCases,
+           arms := (Array.range 36).map (fun k => a.arms.getD k 0 + b.arms.getD k 0),
            counts := cs,
            examples := Id.run do
              -- keep at most 3 examples per (category, block tag)
@@ -518,6 +587,7 @@ def sweepBlock (B : SweepBlock) : IO (SweepAcc × List Nat) := do
                 (B.bits[1]!)[ix]!, (B.bits[2]!)[iy]!, (B.bits[3]!)[iz]!,
                 (B.bits[4]!)[jx]!, (B.bits[5]!)[jy]!, (B.bits[6]!)[jz]!]
               th := tieBits th (if f32 then runF32b v else runF64b v)
+              a := { a with arms := if f32 then armsF32b v a.arms else armsF64b v a.arms }
     return (a, th)
   let mut acc : SweepAcc := {}
   let mut bad : List Nat := []
@@ -769,45 +839,6 @@ def codeGuardsOK (T : Q) (r : Line3 Q) (b : Box3 Q) : Bool :=
   (r.dir.y == 0 || codeGuard T r.pos.y r.dir.y b.min.y b.max.y) &&
   (r.dir.z == 0 || codeGuard T r.pos.z r.dir.z b.min.z b.max.z)
 
-/-- which guard-fail arms a case executes: indices 0-5 `fe` (axis × {dir<0 fallback returns false, falls through}),
-6-17 `intersects` (axis × sign × {back update skipped, front parameter := T}), 18-20 `fe` guard true through
-`|dir| > 1` ALONE, 21-23 `fe` `dir >= 0` fallback (returns false or falls through) with `dir > 0` -/
-def smallArms (T : Q) (r : Line3 Q) (b : Box3 Q) (h : Array Nat) : Array Nat := Id.run do
-  if boxEmpty b then return h
-  let mut h := h
-  let ax : Array (Q × Q × Q × Q) := #[(r.pos.x, r.dir.x, b.min.x, b.max.x), (r.pos.y, r.dir.y, b.min.y, b.max.y),
-                                      (r.pos.z, r.dir.z, b.min.z, b.max.z)]
-  -- findEntryAndExitPoints
-  let mut live := true
-  for a in [0:3] do
-    if live then
-      let (p, d, lo, hi) := ax[a]!
-      let g := codeGuard T p d lo hi
-      let out := p < lo || p > hi
-      if !g then
-        if d < 0 then h := h.modify (2 * a + (if out then 0 else 1)) (· + 1)
-        if d > 0 then h := h.modify (21 + a) (· + 1)
-        if out then live := false
-      else if !(qabs (hi - p) < T * qabs d && qabs (lo - p) < T * qabs d) then h := h.modify (18 + a) (· + 1)
-  -- intersects (blocks run only for an origin outside the box)
-  if boxHas b r.pos then return h
-  live := true
-  for a in [0:3] do
-    if live then
-      let (p, d, lo, hi) := ax[a]!
-      if d > 0 then
-        if p > hi then live := false
-        else
-          if !(d > 1 || hi - p < T * d) then h := h.modify (6 + 4 * a) (· + 1)
-          if p ≤ lo && !(d > 1 || lo - p < T * d) then h := h.modify (6 + 4 * a + 1) (· + 1)
-      else if d < 0 then
-        if p < lo then live := false
-        else
-          if !(d < -1 || lo - p > T * d) then h := h.modify (6 + 4 * a + 2) (· + 1)
-          if p ≥ hi && !(d < -1 || hi - p > T * d) then h := h.modify (6 + 4 * a + 3) (· + 1)
-      else if p < lo || p > hi then live := false
-  return h
-
 structure SmallSum where
   tie : UInt64
   nFe : Nat
@@ -827,7 +858,7 @@ def Small.runBlock (n : Small) (blk : Nat) : SmallSum := Id.run do
   let mut nW := 0
   let mut nWc := 0
   let mut nU := 0
-  let mut arms : Array Nat := Array.replicate 24 0
+  let mut arms : Array Nat := Array.replicate NARMS 0
   for ci in [0:n.perBlock] do
     let (r, b) := n.case blk ci
     let m := runModel n.T r b
@@ -842,7 +873,7 @@ def Small.runBlock (n : Small) (blk : Nat) : SmallSum := Id.run do
       let wr := (oInter l (some ⟨false, 0, false, n.T⟩)).isSome
       if m.feHit != wl || m.isHit != wr then nW := nW + 1
     if m.feHit && m.entry == sentinelE && m.exit == sentinelX then nU := nU + 1
-    arms := smallArms n.T r b arms
+    arms := armsG n.T r b (fun _ => false) arms
   return ⟨ht, nFe, nIs, nG, nW, nWc, nU, arms⟩
 
 def runTasksG {β : Type} [Inhabited β] (nt : Nat) (lo hi : Nat) (f : Nat → β) : IO (Array β) := do
@@ -968,6 +999,7 @@ def main (args : List String) : IO Unit := do
     out.putStrLn s!"zeroDirCases {a.zeroDirCases}"
     out.putStrLn s!"tieChunks {o.tieChunks}"
     out.putStrLn s!"tieBad {o.tieBad}"
+    out.putStrLn s!"arms {" ".intercalate (a.arms.toList.map toString)}"
     for (c, n) in a.counts do out.putStrLn s!"count {c} {n}"
     for l in o.lines do out.putStrLn l
     for e in a.examples do out.putStrLn e
